@@ -146,6 +146,8 @@ def mul(a, b):
         a, b = b, a
     elif b.op != 'const' and b.id < a.id:
         a, b = b, a
+    if b.op == 'const' and a.op == '*' and a.args[1].op == 'const':
+        return mul(a.args[0], const(a.args[1].args[0] * b.args[0]))     # (x*c1)*c2 = x*(c1*c2)
     return _mk('*', a, b)
 
 
